@@ -797,10 +797,17 @@ batch:
                  sanitise(o.v.cls.substr(o.v.cls.find('/') + 1)).c_str(),
                  sanitise(o.v.sig).substr(0, 60).c_str(), cfg.batch_seed, i);
         write_file(name, replay_to_string(e, r));
+        // the unminimised plan is kept as well: if the minimised one turns out to depend on state that
+        // earlier runs of this process left behind, the driver starts over from it in fresh processes
+        ReplayFile orig = r;
+        orig.plan = p2;
+        orig.expect = o.v;
+        std::string oname = std::string(name) + ".orig";
+        write_file(oname, replay_to_string(e, orig));
         printf("VIOL prop=%s class=%s sig=\"%s\" ops=%zu execs=%" PRIu64 " replay=%s run=%" PRIu64
-               " runseed=%" PRIu64 "\n",
+               " runseed=%" PRIu64 " from=%" PRIu64 " orig=%s\n",
                cfg.prop.c_str(), o.v.cls.c_str(), esc(o.v.sig).c_str(), m.ops.size(), t.execs,
-               name, i, seed);
+               name, i, seed, from, oname.c_str());
     };
 
     auto exec = [&](const Plan& p, uint64_t i) -> Outcome {
